@@ -51,7 +51,7 @@ pub fn dir_read(config: &Config) -> (r: Result<ReadDir, io::Error>)
     requires lock_held(config.dir)
     ensures r is Ok ==> r->Ok_0.items() == dir_listing(config.dir) && r->Ok_0.pos() == 0
 { unimplemented!() }
-/// ASSUMED (str parsing; cross-checked against chunk_file_name by the Kani harness k_chunk_name_roundtrip): the parser, abstractly
+/// ASSUMED (str parsing): the parser, abstractly.  A full-domain Kani harness relating it to chunk_file_name was tried and ran out of time in symbolic execution of format!/chars/parse (25 min), so the file-name codec stays not under contract
 #[verifier::external_body]
 pub fn parse_chunk_file_name_of(n: &LossyName) -> (r: Result<u64, InvalidChunkFileName>)
     ensures r is Ok <==> n.name().parsed is Some, r is Ok ==> r->Ok_0 == n.name().parsed->Some_0
